@@ -1,34 +1,22 @@
-"""C02 A non-multiplexed connection serves one request at a time (E1: step contracts)."""
-import kanirun
+"""C02 A non-multiplexed connection serves one request at a time (E2: step contracts of the pool)"""
+import mirrun
 from kanirun import H
 
 FACADE = True
-CBMC_ARGS = ["--unwindset", kanirun.SWAP_LOOP + ":8"]
-KANI_ARGS = ["--no-memory-safety-checks"]
-STUBS = ["rs", "tracing", "clock", "lock"]
-FUNCS = ["client::pool::PoolInner::push", "client::pool::Pooled::{drop,take}", "client::pool::WhenReady::{poll,drop}", "client::pool::PoolRef::lock"]
-BOUNDS = "push step from pre-states with 0..2 waiters (each live/closed symbolic), 0..2 idle entries; unwind 3 (+ unwindset 8 for core::ptr::swap chunks)"
-OUTSIDE = "multi-request interleavings through Pool::checkout/Checkout::poll (see C03 in not_applicable); the 'upgraded connection' clause (rests on hyper reporting is_ready()==false after an upgrade)"
-ASSUMPTIONS = ["memory-safety checks of std/hashbrown/tokio internals are switched off for these harnesses (functional assertions, overflow and unwinding checks stay on)"]
-TIMEOUT = {"quick": 900, "thorough": 2400}
-
-
-def b(x):
-    return "true" if x else "false"
-
-
-def push(nw, ni, share, max_idle, bound, with_b, mark, tier, pid="c02"):
-    return H(name=f"{pid}_push_w{nw}_i{ni}_s{int(share)}_m{max_idle}_c{int(bound)}_b{int(with_b)}_k{int(mark)}", module="pool",
-             call=f"push_step({nw},{ni},{b(share)},{max_idle},{b(bound)},{b(with_b)},{b(mark)})", unwind=3, stubs=STUBS, family="push_step", tier=tier,
-             desc={"waiters_A": nw, "idle_A": ni, "shareable": share, "max_idle_per_host": max_idle, "other_origin_populated": with_b, "connecting_marked": mark},
-             funcs=FUNCS[:1])
+FUNCS = ["client::pool::PoolInner::push", "<Pooled as Drop>::drop", "<WhenReady as Future>::poll", "<WhenReady as Drop>::drop", "client::pool::checkout::register_connected", "client::pool::PoolRef::lock", "client::pool::Pooled::take"]
+BOUNDS = "push: 0..2 waiters (alive/gone symbolic) x 0..2 idle x shareable x second origin x max_idle in {0,1,2,8}; release path: readiness scripts <= 3 polls, cancellation after any poll, token zero/non-zero, pool alive/dropped; register: 0..2 waiters"
+OUTSIDE = "interleavings of several requests through Checkout::poll (oneshot receiver polling, PinnedDrop): each step is decided from an arbitrary bounded state instead; the 'upgraded connection' clause (rests on hyper reporting is_ready()==false after an upgrade)"
+ASSUMPTIONS = ["HashMap/HashSet/VecDeque/Vec, tokio oneshot, parking_lot Mutex, Arc/Weak and Instant are replaced by contract-level models; the mock connection reports symbolic openness and scripted readiness",
+               "a connection whose sender is still busy does not report open (HttpConnection::is_open is SendRequest::is_ready)", "single-threaded: every step runs with the pool mutex available; re-locking a held mutex is reported as a deadlock"]
+TRUSTED = ["mirsym MIR parser/executor", "collection / channel / mutex / clock models (mirsym/pool_models.py)", "z3 5.1"]
 
 
 def harnesses(tier, seed):
     hs = []
-    hs.append(push(1, 0, False, 8, False, False, False, "quick"))
-    hs.append(push(2, 0, False, 8, False, False, False, "thorough"))
-    hs.append(push(0, 1, False, 8, False, False, False, "thorough"))
-    hs.append(push(2, 1, False, 8, False, False, False, "thorough"))
-    hs.append(push(1, 0, False, 8, False, False, True, "thorough"))
     return hs
+
+
+def extra(tier, seed, log):
+    res, table = mirrun.run("C02", tier, seed, log)
+    extra.model_table = table
+    return res
